@@ -99,6 +99,20 @@ func C02(c *fw.Ctx) {
 			judge(c, mkProg(model.Un(op, x.Mk())), judgeOpts{SigPrefix: "un" + op + "|" + kindLabel(x.Name), NoKind: true})
 		}
 	}
+	// stacked prefix operators: every sequence of two and of three, applied innermost first
+	for _, o1 := range []string{"-", "!", "~"} {
+		for _, o2 := range []string{"-", "!", "~"} {
+			for _, x := range ops {
+				if !c.Mine() {
+					continue
+				}
+				judge(c, mkProg(model.Un(o1, model.Un(o2, x.Mk()))), judgeOpts{SigPrefix: "un" + o1 + o2 + "|" + kindLabel(x.Name), NoKind: true})
+				for _, o3 := range []string{"-", "!", "~"} {
+					judge(c, mkProg(model.Un(o1, model.Un(o2, model.Un(o3, x.Mk())))), judgeOpts{SigPrefix: "un" + o1 + o2 + o3 + "|" + kindLabel(x.Name), NoKind: true, NoOneLine: true})
+				}
+			}
+		}
+	}
 	// binary matrix
 	for _, op := range model.BinOps {
 		for _, x := range ops {
